@@ -2,6 +2,7 @@
 from __future__ import annotations
 
 import collections
+import itertools
 import json
 import os
 import warnings
@@ -271,6 +272,34 @@ def preset_extra_cases():
                 yield ("stored-password-entry", inp, obs == (scheme, True, False), obs, (scheme, True, False))
 
 
+def boundary_password_cases():
+    """(tag, input, ok, observed, expected): the empty password, a blank and a non-ASCII one through every scheme of every exported context —
+    the shortest strings a scheme can produce (a bare prefix for the wrappers of the store-the-password schemes) are still its own"""
+    for label, c in contexts().items():
+        for s in c.schemes():
+            if not can_hash(s) or s in fc.EXPENSIVE or s in ("unix_disabled", "django_disabled"):
+                continue
+            h = c.handler(s)
+            kw = fc.ctx_kwds(h)
+            for pw in ("", " ", "\u00e9"):
+                try:
+                    hh = h.using(rounds=max(h.min_rounds, 1)) if "rounds" in (h.setting_kwds or ()) and s not in ("sun_md5_crypt", "bsdi_crypt", "ldap_bsdi_crypt") else h
+                    hs = hh.hash(pw, **kw)
+                except Exception:  # noqa: BLE001
+                    continue        # not an admissible password for the scheme
+                if not h.identify(hs):
+                    continue        # the scheme itself does not claim the string: the empty password is not admissible for ldap_plaintext (C01's business)
+                inp = {"op": "boundary-password", "context": label, "scheme": s, "password": pw, "hash": hs}
+                try:
+                    who = c.identify(hs)
+                    if who != s and (label, who, s) in KNOWN_OVERLAPS:
+                        continue        # recorded finding (an earlier scheme of the context claims the string)
+                    obs = (who, c.verify(pw, hs, **kw), c.verify(pw + "x", hs, **kw))
+                except Exception as e:  # noqa: BLE001
+                    obs = errname(e) + ": " + str(e)[:80]
+                yield ("boundary-password", inp, obs == (s, True, False), obs, (s, True, False))
+
+
 def registry_oracle(o):
     warnings.simplefilter("ignore")
     import passlib.hash
@@ -398,7 +427,7 @@ def correspond(ctx):
                 hs = c.hash("ordinary pw", scheme=s)
                 o_ctx.check(short + ":plain-ordinary", c.identify(hs) == s and c.verify("ordinary pw", hs) is True, {"op": "ctx-identify", "context": label, "scheme": s, "hash": hs}, c.identify(hs), s)
     registry_oracle(o_reg)
-    for tag, inp, ok, obs, exp in preset_extra_cases():
+    for tag, inp, ok, obs, exp in itertools.chain(preset_extra_cases(), boundary_password_cases()):
         o_ctx.check(tag, ok, inp, obs, exp)
     return merge(s_id, s_sh, s_out, s_at, o_ctx, o_reg)
 
@@ -418,7 +447,7 @@ def search(ctx, broken, seeds):
             own = ctx_hashes(c, label, s, rng, 1) if can_hash(s) and not (s in fc.EXPENSIVE and len(schemes) > 20) else []
             check_context_scheme(o_ctx, label, c, s, items + own, with_update=len(schemes) <= 20)
     registry_oracle(o_reg)
-    for tag, inp, ok, obs, exp in preset_extra_cases():
+    for tag, inp, ok, obs, exp in itertools.chain(preset_extra_cases(), boundary_password_cases()):
         o_ctx.check(tag, ok, inp, obs, exp)
     for o in (o_ctx, o_reg):
         if o.mismatches:
